@@ -251,6 +251,16 @@ static std::string run_variant(const std::string& variant, const std::string& sr
       return s + " where=" + where(a.data()) + " after=" + after(a.data(), sizeof a);
     });
   }
+  if (variant == "arrref") {
+    // the same with a verifier that takes the array BY REFERENCE: what it looks at must still be the application-memory snapshot
+    auto p = mkptr<int[N_ARR]>(ARR);
+    arm();
+    return (*p).copy_and_verify([&](const std::array<int, N_ARR>& a) -> std::string {
+      disarm();
+      std::string s = "a="; for (int i = 0; i < N_ARR; i++) s += (i ? "," : "") + std::to_string(a[i]);
+      return s + " where=" + where(a.data()) + " after=" + after(a.data(), sizeof a);
+    });
+  }
   if (variant == "range") {
     return with_src<int>(src, ARR, [&](auto& p) {
       g_track_new = true;
